@@ -92,7 +92,7 @@ Qed.
 
 Lemma request_of_spec en s q :
   request_of en s = inr q <->
-  (q_url q = s_url s /\ q_verify q = s_verify s /\ q_descriptions q = false /\
+  (q_url q = s_url s /\ q_verify q = s_verify s /\ q_query q = full_query /\
    Forall2 (header_ok en) (s_headers s) (q_headers q)).
 Proof.
   unfold request_of. destruct (resolve_headers en (s_headers s)) as [n|hs] eqn:R.
@@ -211,57 +211,30 @@ Qed.
 
 Definition all_fields (p : ifield -> bool) (s : inputs) : bool := forallb (fun c => forallb p (snd c)) s.
 
-Lemma gen_inputs_via_gen (ok : ifield -> bool) s :
-  all_fields (fun f => negb (if_deprecated f)) s = true ->
-  all_fields ok s = true ->
-  (forall f, ok f = true -> gen_field (via_field f) = gen_field f) ->
-  gen_inputs (via_introspection s) = gen_inputs s.
-Proof.
-  intros Hd Hok E. unfold gen_inputs, via_introspection. rewrite map_map.
-  unfold all_fields in *. induction s as [|[n fs] s IH]; simpl in *; [reflexivity|].
-  apply andb_true_iff in Hd as [Hd1 Hd2]. apply andb_true_iff in Hok as [Ho1 Ho2].
-  rewrite (IH Hd2 Ho2). f_equal. f_equal. unfold via_fields.
-  rewrite (filter_all _ _ Hd1), map_map. apply (map_ext_forallb _ _ ok); assumption.
-Qed.
-
-(* the input models coincide: same classes, fields, required flags and defaults - for every schema
-   without deprecated input fields (the one class that remains, F19-deprecated-input-fields) *)
+(* the input models coincide on both routes: same classes, fields, required flags and defaults *)
 Theorem introspection_inputs s :
-  wf_sdl s = true -> no_deprecated s = true ->
-  gen_inputs (via_introspection s) = gen_inputs s.
-Proof.
-  intros Hw Hd. apply (gen_inputs_via_gen wf_field); [exact Hd | exact Hw |].
-  intros f H. apply gen_field_via. exact H.
-Qed.
-
-Theorem required_set s :
-  wf_sdl s = true -> no_deprecated s = true ->
-  map (fun c => (fst c, required_names (snd c))) (gen_inputs (via_introspection s)) =
-  map (fun c => (fst c, required_names (snd c))) (gen_inputs s).
-Proof. intros Hw Hd. rewrite (introspection_inputs s Hw Hd). reflexivity. Qed.
-
-(* names and types of the surviving fields are always preserved *)
-Theorem introspection_keeps_names_types s :
-  map (fun c => (fst c, map (fun p => (pf_name p, pf_type p)) (snd c))) (gen_inputs (via_introspection s)) =
-  map (fun c => (fst c, map (fun f => (if_name f, if_type f)) (filter (fun f => negb (if_deprecated f)) (snd c)))) s.
-Proof.
-  unfold gen_inputs, via_introspection, via_fields. rewrite !map_map. apply map_ext. intros [n fs]. simpl.
-  f_equal. rewrite !map_map. reflexivity.
-Qed.
-
-(* and every surviving field is generated exactly as on the SDL route: the two packages differ by the
-   missing deprecated fields and nothing else *)
-Theorem introspection_surviving_fields s :
-  wf_sdl s = true ->
-  gen_inputs (via_introspection s) =
-  map (fun c => (fst c, map gen_field (filter (fun f => negb (if_deprecated f)) (snd c)))) s.
+  wf_sdl s = true -> gen_inputs (via_introspection s) = gen_inputs s.
 Proof.
   unfold wf_sdl, gen_inputs, via_introspection. rewrite map_map.
   induction s as [|[n fs] s IH]; [reflexivity|]. intro Hw. cbn [forallb snd] in Hw.
   apply andb_true_iff in Hw as [W1 W2]. rewrite !map_cons, (IH W2). f_equal. cbn [fst snd]. f_equal.
-  unfold via_fields. rewrite map_map. clear -W1.
-  induction fs as [|f fs IH]; [reflexivity|]. cbn [forallb] in W1. apply andb_true_iff in W1 as [A1 A2].
-  cbn [filter]. destruct (negb (if_deprecated f)); cbn [map]; rewrite ?(gen_field_via f A1), (IH A2); reflexivity.
+  unfold via_fields. rewrite map_map. apply (map_ext_forallb _ _ wf_field); [exact W1|].
+  intros f H. apply gen_field_via. exact H.
+Qed.
+
+Theorem required_set s :
+  wf_sdl s = true ->
+  map (fun c => (fst c, required_names (snd c))) (gen_inputs (via_introspection s)) =
+  map (fun c => (fst c, required_names (snd c))) (gen_inputs s).
+Proof. intro Hw. rewrite (introspection_inputs s Hw). reflexivity. Qed.
+
+(* names, types and deprecation marks survive for ANY input list (no well-formedness needed) *)
+Theorem introspection_keeps_names_types s :
+  map (fun c => (fst c, map (fun f => (if_name f, if_type f, if_deprecated f)) (snd c))) (via_introspection s) =
+  map (fun c => (fst c, map (fun f => (if_name f, if_type f, if_deprecated f)) (snd c))) s.
+Proof.
+  unfold via_introspection, via_fields. rewrite map_map. apply map_ext. intros [n fs]. simpl.
+  f_equal. rewrite map_map. reflexivity.
 Qed.
 
 (* ------------------------------------------------------------------ loader + generator *)
